@@ -4,7 +4,7 @@
 // carried by a real primitive.  "clean" programs communicate correctly through one primitive each
 // (unbuffered / buffered channel, the k-th receive before the (k+C)-th send, a parked receiver, a
 // parked sender, close, WaitGroup, Mutex, RWMutex, Once, context cancellation, an atomic flag,
-// select, time.AfterFunc): a report on any schedule would be a false alarm of the gate (an edge
+// select, time.AfterFunc, sync.Pool Put before Get): a report on any schedule would be a false alarm of the gate (an edge
 // missing from its model).  "racy" programs omit the edge, or rely on an edge Go does not give (two
 // senders on a buffered channel, two Done calls of a WaitGroup, a receiver's earlier writes and the
 // sender of a buffered hand-off, the task that happens to fire a timer): no report on any schedule
@@ -177,6 +177,34 @@ var programs = map[string]struct {
 		done := make(chan int)
 		b.x = 1
 		go func() { _ = b.x; done <- 1 }()
+		<-done
+	}},
+	"clean/pool-put-to-get": {false, func() {
+		var pool sync.Pool
+		done := make(chan int, 2)
+		go func() { b := &box{}; b.x = 1; pool.Put(b); done <- 1 }()
+		go func() {
+			time.Sleep(time.Millisecond)
+			if b, ok := pool.Get().(*box); ok {
+				_ = b.x
+			}
+			done <- 1
+		}()
+		<-done
+		<-done
+	}},
+	"racy/object-touched-after-pool-put": {true, func() {
+		var pool sync.Pool
+		done := make(chan int, 2)
+		go func() { b := &box{}; pool.Put(b); b.x = 1; done <- 1 }() // still writes to what it has given away
+		go func() {
+			time.Sleep(time.Millisecond)
+			if b, ok := pool.Get().(*box); ok {
+				b.x = 2
+			}
+			done <- 1
+		}()
+		<-done
 		<-done
 	}},
 	"racy/no-synchronisation": {true, func() {
